@@ -479,6 +479,73 @@ def pipeline(ns, res, r, nhist):
         checker.check_exprs = orig
 
 
+def alternatives(ns, res, r, n):
+    """One ddmin task carries *several* simplifications, all computed for the
+    task's input; the worker tries them one after the other until the
+    command accepts one.  Every candidate it hands to the checker must be
+    the task's input with exactly that one simplification applied - also
+    after earlier alternatives of the same task were rejected."""
+    import importlib
+    import pickle
+    ddmin = importlib.import_module('ddsmt.strategy_ddmin')
+    checker = importlib.import_module('ddsmt.checker')
+    Simp = ns.mutator_utils.Simplification
+    seen = []
+    accept_at = [0]
+    orig = checker.check_exprs
+
+    def stub(exprs):
+        seen.append(exprs)
+        return len(seen) > accept_at[0]
+
+    checker.check_exprs = stub
+    try:
+        for i in range(n):
+            exprs = [refmodel.build(ns.Node, t) for t in rand_items(r)]
+            k = r.randint(2, 4)
+            simps, wants = [], []
+            for _ in range(k):
+                mode = r.choice(['ids', 'ids-delete', 'struct-leaf'])
+                substs, id_map, struct, fresh, info = gen_simp(ns, r, exprs,
+                                                               mode)
+                want, hits, _u = refmodel.substitute(exprs, id_map, struct)
+                if not hits:
+                    continue
+                simps.append(Simp(dict(substs), []))
+                wants.append(want)
+            if len(simps) < 2:
+                continue
+            accept_at[0] = r.randint(1, len(simps) - 1)
+            del seen[:]
+            pickled = r.random() < 0.5
+            task = ddmin.Task(i, pickle.dumps(exprs) if pickled else exprs,
+                              pickle.dumps(simps) if pickled else simps)
+            try:
+                ddmin._worker(task)
+            except Exception as e:  # noqa
+                res.violation(f'alternatives-raised-{type(e).__name__}',
+                              f'_worker raised {e!r}', {})
+                return
+            res.count('evaluations')
+            res.count('tasks_with_alternatives')
+            for j, cand in enumerate(seen):
+                res.count('alternative_candidates_compared')
+                got = refmodel.to_nested_list(cand)
+                if j < len(wants) and got != wants[j]:
+                    res.violation(
+                        'alternatives:candidate-is-not-input-plus-one-'
+                        'simplification',
+                        f'alternative #{j + 1} of a ddmin task (after '
+                        f'{j} rejected one(s)) gave {got!r}; the task\'s '
+                        f'input with that simplification alone is '
+                        f'{wants[j]!r}',
+                        {'input': refmodel.to_nested_list(exprs),
+                         'alternative': j, 'got': got, 'model': wants[j]})
+                    return
+    finally:
+        checker.check_exprs = orig
+
+
 def adopted_histories(ns, res, r, nhist):
     """The input of a round is what the strategy adopted in the round
     before: the answer of a worker (pickled), re-duplicated.  After a
@@ -568,6 +635,7 @@ def shard(args):
     if args.get('kind') == 'pipeline':
         pipeline(ns, res, r, args['n'])
         adopted_histories(ns, res, r, args['n'])
+        alternatives(ns, res, r, args['n'] * 4)
         return res.to_dict()
     for i in range(args['n']):
         items = rand_items(r)
@@ -641,6 +709,8 @@ def run(ctx):
     for m in MODES:
         if ctx.counters.get(f'mode_{m}', 0) == 0:
             ctx.inconclusive_because(f'mode {m} never evaluated')
+    if ctx.counters.get('tasks_with_alternatives', 0) == 0:
+        ctx.inconclusive_because('no task with alternatives was driven')
     if ctx.counters.get('adopted_history_steps', 0) == 0:
         ctx.inconclusive_because('no adopted history was driven')
     for e in ('ddmin', 'hierarchical'):
@@ -709,6 +779,9 @@ def replay(data):
         w = c['witness']
         if 'history' in w:
             replay_pipeline(ns, res, w)
+            continue
+        if str(data.get('key', '')).startswith('alternatives'):
+            alternatives(ns, res, common.rng('c11-replay'), 400)
             continue
         if str(data.get('key', '')).startswith('adopted-history'):
             adopted_histories(ns, res, common.rng('c11-replay'), 200)
